@@ -69,13 +69,18 @@ def getFloat (f32 : List Char → Option (List Char)) (ctx : Ctx) : PM (List Cha
   | some r => pure r
   | none => fail .malformedNumber
 
-/-- `for _ in 0..dim { items.push(parse_ifdata_item(..)?) }` -/
+/-- `for _ in 0..dim { items.push(parse_ifdata_item(..)?); if nothing was consumed { break } }`: an element that
+    consumes no input is kept and ends the loop (repeating it `dim` times would only cost time and memory) -/
 def arrayLoop (p : PM Gen) : Nat → PM (List Gen)
   | 0 => pure []
   | n + 1 => do
+    let itempos ← getTokenpos
     let v ← p
-    let vs ← arrayLoop p n
-    pure (v :: vs)
+    let pos ← getTokenpos
+    if pos = itempos then pure [v]
+    else do
+      let vs ← arrayLoop p n
+      pure (v :: vs)
 
 /-- the `while let Ok(item)` loop of the `Sequence` arm: an element that fails, or that consumes nothing, ends the list;
     the cursor goes back to the last checkpoint -/
@@ -201,11 +206,13 @@ def dispatch (f32 : List Char → Option (List Char)) : List (Tagged Spec) → L
 
 end
 
-/-- `parse_ifdata_from_spec` -/
+/-- `parse_ifdata_from_spec`: comments between the last item and the closing `/end` are consumed before the check -/
 def fromSpec (f32 : List Char → Option (List Char)) (ctx : Ctx) (sp : Spec) : PM (Option Gen) := do
   let pos ← getTokenpos
   match (← attempt (itemP f32 sp ctx)) with
   | .ok g =>
+    let e ← getEnv
+    skipComments ctx (e.toks.size + 1)
     match (← peekToken) with
     | some t =>
       if t.ty = 2 then pure (some (makeBlock g ctx.line))
@@ -287,7 +294,8 @@ def unknownTaggedstruct (fuel : Nat) (ctx : Ctx) : PM Gen :=
     | some t => if t.ty = 1 then fail .invalidBegin else pure (.taggedStruct items)
     | none => pure (.taggedStruct items)
 
-/-- the `while let Ok(BlockContent::Block(..))` loop of `parse_unknown_taggedstruct` -/
+/-- the `loop` of `parse_unknown_taggedstruct`: a comment between two items is skipped, anything else that is not a
+    tag ends the loop -/
 def unknownTsLoop (fuel : Nat) (ctx : Ctx) (acc : List (TItem Gen)) : PM (List (TItem Gen)) :=
   match fuel with
   | 0 => outOfFuel
@@ -299,6 +307,7 @@ def unknownTsLoop (fuel : Nat) (ctx : Ctx) (acc : List (TItem Gen)) : PM (List (
       let result ← unknownIfdata fuel newctx isBlock []
       let endOff ← endOfTagged newctx tok.text isBlock
       unknownTsLoop fuel ctx (⟨newctx.line, uid, startOff, endOff, tok.text, result, isBlock⟩ :: acc)
+    | .ok (.comment _ _) => unknownTsLoop fuel ctx acc
     | _ => pure acc.reverse
 
 end
